@@ -9,7 +9,9 @@ use cardinalsin::StorageConfig;
 use futures::TryStreamExt;
 use object_store::memory::InMemory;
 use object_store::path::Path;
-use object_store::{ObjectStore, PutPayload};
+use object_store::{GetOptions, GetResult, ListResult, MultipartUpload, ObjectMeta, ObjectStore, PutMultipartOpts, PutOptions, PutPayload, PutResult};
+use std::collections::HashSet;
+use std::sync::Mutex;
 use std::sync::Arc;
 
 pub const BUCKET: &str = "cardinalsin-data";
@@ -86,6 +88,8 @@ pub fn parquet_bytes(batch: &RecordBatch) -> Vec<u8> {
 
 pub struct World {
     pub store: Arc<InMemory>,
+    /// what the nodes read through: transparent unless read faults are configured
+    pub flaky: Arc<FlakyStore>,
     pub metadata: Arc<dyn MetadataClient>,
     pub storage: StorageConfig,
     pub chunks: Vec<ChunkSpec>,
@@ -113,11 +117,12 @@ impl World {
             let m = ChunkMetadata { path: p.clone(), min_timestamp: c.min_ts, max_timestamp: c.max_ts, row_count: c.rows.max(1) as u64, size_bytes: size };
             metadata.register_chunk(&p, &m).await.unwrap();
         }
-        World { store, metadata, storage: StorageConfig::default(), chunks: chunks.to_vec() }
+        let flaky = Arc::new(FlakyStore { inner: store.clone(), failing: Mutex::new(HashSet::new()), injected: Mutex::new(0) });
+        World { store, flaky, metadata, storage: StorageConfig::default(), chunks: chunks.to_vec() }
     }
 
     pub fn dynstore(&self) -> Arc<dyn ObjectStore> {
-        self.store.clone()
+        self.flaky.clone()
     }
 
     pub async fn node(&self) -> QueryNode {
@@ -137,5 +142,72 @@ impl World {
             .collect();
         v.sort();
         v
+    }
+}
+
+tokio::task_local! {
+    /// id of the query the current task runs (set by the C10 driver)
+    pub static CURRENT_Q: usize;
+}
+
+/// Object store wrapper with read faults scoped to one query: reads (GET, ranged GET, HEAD) of a
+/// configured path fail when they are issued from the task of the configured query.
+pub struct FlakyStore {
+    pub inner: Arc<InMemory>,
+    pub failing: Mutex<HashSet<(usize, String)>>,
+    pub injected: Mutex<u64>,
+}
+
+impl FlakyStore {
+    pub fn fail_reads(&self, query: usize, path: &str) {
+        self.failing.lock().unwrap().insert((query, path.to_string()));
+    }
+    pub fn injected(&self) -> u64 {
+        *self.injected.lock().unwrap()
+    }
+}
+
+impl std::fmt::Debug for FlakyStore {
+    fn fmt(&self, f: &mut std::fmt::Formatter<'_>) -> std::fmt::Result {
+        write!(f, "FlakyStore")
+    }
+}
+impl std::fmt::Display for FlakyStore {
+    fn fmt(&self, f: &mut std::fmt::Formatter<'_>) -> std::fmt::Result {
+        write!(f, "FlakyStore")
+    }
+}
+
+#[async_trait::async_trait]
+impl ObjectStore for FlakyStore {
+    async fn put_opts(&self, location: &Path, payload: PutPayload, opts: PutOptions) -> object_store::Result<PutResult> {
+        self.inner.put_opts(location, payload, opts).await
+    }
+    async fn put_multipart_opts(&self, location: &Path, opts: PutMultipartOpts) -> object_store::Result<Box<dyn MultipartUpload>> {
+        self.inner.put_multipart_opts(location, opts).await
+    }
+    async fn get_opts(&self, location: &Path, options: GetOptions) -> object_store::Result<GetResult> {
+        if let Ok(q) = CURRENT_Q.try_with(|q| *q) {
+            if self.failing.lock().unwrap().contains(&(q, location.to_string())) {
+                *self.injected.lock().unwrap() += 1;
+                return Err(object_store::Error::Generic { store: "FlakyStore", source: format!("injected read error on {}", location).into() });
+            }
+        }
+        self.inner.get_opts(location, options).await
+    }
+    async fn delete(&self, location: &Path) -> object_store::Result<()> {
+        self.inner.delete(location).await
+    }
+    fn list(&self, prefix: Option<&Path>) -> futures::stream::BoxStream<'_, object_store::Result<ObjectMeta>> {
+        self.inner.list(prefix)
+    }
+    async fn list_with_delimiter(&self, prefix: Option<&Path>) -> object_store::Result<ListResult> {
+        self.inner.list_with_delimiter(prefix).await
+    }
+    async fn copy(&self, from: &Path, to: &Path) -> object_store::Result<()> {
+        self.inner.copy(from, to).await
+    }
+    async fn copy_if_not_exists(&self, from: &Path, to: &Path) -> object_store::Result<()> {
+        self.inner.copy_if_not_exists(from, to).await
     }
 }
